@@ -258,8 +258,42 @@ def run_selfname(ctx, rep, rid="R-C02-selfname"):
                 r.finding(inst + "|not-a-variable", loc_str(b.f, c.loc), "the name of a %s is entered into its own scope as if it were a variable: a use of that name inside it is accepted (no P0015)" % owner)
 
 
+def run_foreignscope(ctx, rep, rid="R-C02-foreignscope"):
+    """`PROGRAM P1 WITH T1 : Main (x := 5, y => g);` - x and y are variables of the program Main, written inside a configuration.  The
+    undeclared-variable rule keeps one scope per declaration it walks; when its traversal descends from a program connection into the
+    program-side variable, it looks x up among the names of the *configuration* and reports P0015 for a correct connection.  Under the rule's
+    own overrides, no variable-naming node is reachable below ProgramConnectionSource / ProgramConnectionSink."""
+    from vlib.traversal import Traversal
+    r = rep.rule(rid, "the undeclared-variable rule does not look up the program-side variable of a program connection in the scope of the configuration: under its "
+                      "overrides no variable node is reachable below ProgramConnectionSource/Sink", floor=2, floor_what="program connection node types")
+    T = Traversal(ctx, "visit")
+    ov = {}
+    for b in ctx.prog.bodies.values():
+        im = b.f.get("impl") or {}
+        if b.f["crate"] == "ironplc_analyzer" and "rule_use_declared_symbolic_var" in b.f["file"] and im.get("trait_def") == "ironplc_dsl::visitor::Visitor" \
+                and b.f["name"].startswith("visit_") and "::test" not in norm(b.id):
+            ov[b.f["name"]] = b
+    if not ov:
+        rep.error(rid, "the undeclared-variable rule has no overrides")
+        return
+    VARS = {"visit_named_variable", "visit_symbolic_variable_kind", "visit_variable", "visit_array_variable", "visit_structured_variable"}
+    for m in ("visit_program_connection_source", "visit_program_connection_sink"):
+        if m not in T.default and m not in ov:
+            r.finding(m + "|missing", "dsl/src/visitor.rs", "the visitor has no such method any more: re-derive the rule")
+            continue
+        reached = {x for k, x in T.reach([("v", m)], ov) if k == "v"}
+        hit = sorted(reached & VARS)
+        where = "%s:%d" % (ov[m].f["file"], ov[m].f["line"]) if m in ov else "analyzer/src/rule_use_declared_symbolic_var.rs"
+        if hit:
+            r.finding("%s|reaches %s" % (m, hit[0]), where, "below a program connection the rule's traversal reaches %s: the program's own variable is looked up among the configuration's names "
+                      "and a correct connection gets P0015" % ", ".join(hit))
+        else:
+            r.ok(m, where, "the program-side variable is not walked")
+
+
 def run(ctx, rep):
     run_selfname(ctx, rep)
+    run_foreignscope(ctx, rep)
     run_identity(ctx, rep)
     run_wholename(ctx, rep)
     run_enumunique(ctx, rep)
